@@ -455,4 +455,28 @@ theorem deleteRecord_iff (env : Env) (hv : env.valid "" = false) (scope : Option
         exact absurd hro hr
       · exact fun h => h.1
 
+/-! ### non-vacuity of the endpoint theorems (hypotheses are met by concrete calls) -/
+
+def exScope : Scope := { owners := exOwners, rollup := true }
+def exPlain : Scope := { owners := [⟨"A", 5, false⟩, ⟨"B", 2, false⟩], rollup := false }
+
+-- a record written into session [A, B] moving away from session [C]: C must be covered
+example : validateWriteRecord exEnv exScope [⟨"A", 10, false⟩, ⟨"B", 2, true⟩] (some [⟨"C", 2, false⟩]) [2]
+    ["A", "B", "C"] = .ok () := by decide
+example : validateWriteRecord exEnv exScope [⟨"A", 10, false⟩, ⟨"B", 2, true⟩] (some [⟨"C", 2, false⟩]) [2]
+    ["A", "B"] ≠ .ok () := by decide
+example : Spec.covered exEnv "WriteRecord" ["A", "B"] "C" = false := by decide
+-- sessions, scopes, deletes: accepted calls exist with and without rollup
+example : validateWriteSession exEnv exScope none [⟨"B", 2, true⟩] [2] ["A", "B"] = .ok () := by decide
+example : validateWriteSession exEnv exPlain none [⟨"D", 2, false⟩] [2] ["A", "B"] = .ok () := by decide
+example : validateWriteScope exEnv (some exPlain) { exPlain with other := 1 } [5] ["A", "B"] = .ok () := by decide
+example : validateWriteScope exEnv (some exPlain) { exPlain with other := 1 } [5] ["A"] ≠ .ok () := by decide
+example : validateDeleteScope exEnv exScope (some [10]) ["A"] = .ok () := by decide
+example : validateDeleteRecord exEnv (some exScope) (some [2, 2]) ["A", "B", "C"] = .ok () := by decide
+example : validateUpdateScopeOwners exEnv "AddScopeOwner" exScope (exOwners ++ [⟨"D", 5, true⟩]) [10] ["A"]
+    = .ok () := by decide
+example : validateScopeUpdateSigners exEnv "AddScopeDataAccess" exPlain [] ["A"] ≠ .ok () := by decide
+example : NoContracts exEnv ["A", "B", "C"] := by
+  intro s hs; simp at hs; rcases hs with rfl | rfl | rfl <;> decide
+
 end PvProofs.C10
